@@ -118,18 +118,20 @@ func runC11(x *mc.X) {
 		st = &oracle.Stored{Status: tk.Status, Header: tk.Header, ReqTime: tk.ReqTime, RespTime: tk.RespTime}
 		world.Advance(secs(elapsed))
 	}
+	// the 304 may come through an intermediary with an Age of its own (different from the one stored first)
+	age304 := map[string]string{"": "", "0": "40", "7": "40", "x": "x", "99999999999999999999": "99999999999999999999"}[originAge]
 	var h304 http.Header
 	var c304 *world.Call
 	answerFn(w, func(o *world.Origin, c *world.Call) (*http.Response, error) {
 		cond := c.Header.Get("If-None-Match") != "" || c.Header.Get("If-Modified-Since") != ""
 		if follow == "304-bg" && cond {
-			resp := o.Respond(c, RS{Status: 304, NoTok: true, H: poisonH(H("ETag", `"v1"`))})
+			resp := o.Respond(c, RS{Status: 304, NoTok: true, H: poisonH(hdrIf(H("ETag", `"v1"`), "Age", age304)), Delay: secs(delay)}) // the 304 may come through an intermediary (Age) and take its time
 			h304, c304 = resp.Header.Clone(), c
 			return resp, nil
 		}
 		switch {
 		case follow == "304" && cond:
-			resp := o.Respond(c, RS{Status: 304, NoTok: true, H: poisonH(H("ETag", `"v1"`))})
+			resp := o.Respond(c, RS{Status: 304, NoTok: true, H: poisonH(hdrIf(H("ETag", `"v1"`), "Age", age304)), Delay: secs(delay)}) // the 304 may come through an intermediary (Age) and take its time
 			h304, c304 = resp.Header.Clone(), c
 			return resp, nil
 		case follow == "500":
